@@ -82,6 +82,12 @@ Qed.
 
 End Steps.
 
+Definition letter_b (c : N) : bool := ((65 <=? c) && (c <=? 90) || (97 <=? c) && (c <=? 122) || (c =? 95))%N.
+Definition digit_b (c : N) : bool := ((48 <=? c) && (c <=? 57))%N.
+Definition alnum_b (c : N) : bool := letter_b c || digit_b c.
+(* what may follow an identifier or a number: the end of the input or an ASCII byte that is not alphanumeric *)
+Definition stops (s : bstr) : Prop := match s with [] => True | c :: _ => (c < 128)%N /\ alnum_b c = false end.
+
 Section Tokens.
 Variable inp : bstr.
 Notation ilen := (Z.of_nat (length inp)).
@@ -139,6 +145,52 @@ Proof.
   intros Hs. pose proof (span_cur _ _ _ Hs) as (Hp & Hd).
   pose proof (span_bounds _ _ _ Hs) as (Hb & Hl).
   unfold span, ignore, set_start. cbn [l_start l_pos length]. repeat split; [exact Hp|lia|exact Hd|lia].
+Qed.
+
+
+Definition head_ascii (s : bstr) : Prop := match s with [] => True | c :: _ => (c < 128)%N end.
+Definition head_digit (s : bstr) : bool := match s with c :: _ => digit_b c | [] => false end.
+
+(* reading one rune and stepping back: nothing moves; the rune is eof or the next (ASCII) byte *)
+Lemma next_back l w s : span l w s -> head_ascii s ->
+  exists r l1, next inp ilen l = Ok (r, l1) /\ span (backup l1) w s /\
+    l_out l1 = l_out l /\ l_last l1 = l_last l /\ l_dd l1 = l_dd l /\ l_start l1 = l_start l /\
+    gen_isDigit r = head_digit s.
+Proof.
+  intros Hs Ha. destruct s as [|c s].
+  - exists eof, (ateof l). rewrite (next_eof l w Hs). split; [reflexivity|]. split; [|repeat split].
+    unfold span, backup, ateof, set_pos. cbn [l_pos l_start l_width]. destruct Hs as (H0 & Hd & Hp). repeat split; try assumption; lia.
+  - cbn in Ha. destruct (next_ascii l w c s Hs Ha) as (Hn & Hs'). exists (Z.of_N c), (adv l). split; [exact Hn|].
+    split; [apply span_backup; exact Hs|repeat split]. unfold gen_isDigit, head_digit, digit_b. lia.
+Qed.
+
+Definition head_rune (s : bstr) : Z := match s with [] => eof | c :: _ => Z.of_N c end.
+
+Lemma next_back2 l w s : span l w s -> head_ascii s ->
+  exists l1, next inp ilen l = Ok (head_rune s, l1) /\ span (backup l1) w s /\
+    l_out l1 = l_out l /\ l_last l1 = l_last l /\ l_dd l1 = l_dd l.
+Proof.
+  intros Hs Ha. destruct s as [|c s].
+  - exists (ateof l). rewrite (next_eof l w Hs). split; [reflexivity|]. split; [|repeat split].
+    unfold span, backup, ateof, set_pos. cbn [l_pos l_start l_width]. destruct Hs as (H0 & Hd & Hp). repeat split; try assumption; lia.
+  - cbn in Ha. destruct (next_ascii l w c s Hs Ha) as (Hn & Hs'). exists (adv l). split; [exact Hn|].
+    split; [apply span_backup; exact Hs|repeat split].
+Qed.
+
+Lemma peek_span l w s : span l w s -> head_ascii s ->
+  exists l1, peek inp ilen l = Ok (head_rune s, l1) /\ span l1 w s /\
+    l_out l1 = l_out l /\ l_last l1 = l_last l /\ l_dd l1 = l_dd l.
+Proof.
+  intros Hs Ha. destruct (next_back2 l w s Hs Ha) as (l1 & Hn & Hs1 & Ho & Hla & Hd).
+  exists (backup l1). unfold peek. rewrite Hn. cbn [bind]. split; [reflexivity|]. split; [exact Hs1|].
+  unfold backup, set_pos. cbn [l_out l_last l_dd]. auto.
+Qed.
+
+Lemma slice_span l w s : span l w s -> slice inp ilen (l_start l) (l_pos l) = Ok w.
+Proof.
+  intros Hs. pose proof (span_bounds _ _ _ Hs) as (Hb & Hlen). destruct Hs as (H0 & Hd & Hp). unfold slice.
+  destruct ((l_start l <? 0) || (l_pos l <? l_start l) || (ilen <? l_pos l)) eqn:E; [lia|].
+  rewrite Hd. replace (Z.to_nat (l_pos l - l_start l)) with (length w) by lia. rewrite take_app_len. reflexivity.
 Qed.
 
 (* ---------- emit on a span ---------- *)
@@ -227,11 +279,6 @@ End Punct.
 
 (* ---------- identifiers (ASCII) ---------- *)
 
-Definition letter_b (c : N) : bool := ((65 <=? c) && (c <=? 90) || (97 <=? c) && (c <=? 122) || (c =? 95))%N.
-Definition digit_b (c : N) : bool := ((48 <=? c) && (c <=? 57))%N.
-Definition alnum_b (c : N) : bool := letter_b c || digit_b c.
-(* what may follow an identifier or a number: the end of the input or an ASCII byte that is not alphanumeric *)
-Definition stops (s : bstr) : Prop := match s with [] => True | c :: _ => (c < 128)%N /\ alnum_b c = false end.
 
 (* tests on an abstract rune: the branches that contradict what is known about it are closed by lia *)
 Ltac unfold_classes :=
@@ -386,21 +433,6 @@ Proof.
   - apply sent_emitted; unfold backup, set_pos; cbn [l_out l_last l_dd]; congruence.
 Qed.
 
-Definition head_ascii (s : bstr) : Prop := match s with [] => True | c :: _ => (c < 128)%N end.
-Definition head_digit (s : bstr) : bool := match s with c :: _ => digit_b c | [] => false end.
-
-(* reading one rune and stepping back: nothing moves; the rune is eof or the next (ASCII) byte *)
-Lemma next_back l w s : span l w s -> head_ascii s ->
-  exists r l1, next inp ilen l = Ok (r, l1) /\ span (backup l1) w s /\
-    l_out l1 = l_out l /\ l_last l1 = l_last l /\ l_dd l1 = l_dd l /\ l_start l1 = l_start l /\
-    gen_isDigit r = head_digit s.
-Proof.
-  intros Hs Ha. destruct s as [|c s].
-  - exists eof, (ateof l). rewrite (next_eof inp l w Hs). split; [reflexivity|]. split; [|repeat split].
-    unfold span, backup, ateof, set_pos. cbn [l_pos l_start l_width]. destruct Hs as (H0 & Hd & Hp). repeat split; try assumption; lia.
-  - cbn in Ha. destruct (next_ascii inp l w c s Hs Ha) as (Hn & Hs'). exists (Z.of_N c), (adv l). split; [exact Hn|].
-    split; [apply span_backup; exact Hs|repeat split]. unfold gen_isDigit, head_digit, digit_b. lia.
-Qed.
 
 Lemma stops_head_ascii s : stops s -> head_ascii s.
 Proof. destruct s; cbn; tauto. Qed.
@@ -437,7 +469,7 @@ Proof.
   assert (Hha : head_ascii (cs ++ s)).
   { destruct cs as [|c cs]; [apply stops_head_ascii; exact Hst|]. cbn in Hcs |- *. apply Bool.andb_true_iff in Hcs. destruct Hcs as [Hc _].
     apply Bool.andb_true_iff in Hc. destruct Hc as [Hc _]. apply N.ltb_lt in Hc. exact Hc. }
-  destruct (next_back (adv lb) ([] ++ [46%N]) (cs ++ s) Hs2 Hha) as (d & l2 & Hn3 & Hs3 & Ho & Hla & Hdd & Hst2 & Hdig).
+  destruct (next_back inp (adv lb) ([] ++ [46%N]) (cs ++ s) Hs2 Hha) as (d & l2 & Hn3 & Hs3 & Ho & Hla & Hdd & Hst2 & Hdig).
   set (ity := if head_digit (cs ++ s) then itemDotIndex else itemDotIdent).
   destruct (ident_tail ity l (backup l2) ([] ++ [46%N]) cs s Hs3 Hcs Hst) as (l' & Ht & Hs' & Hsent);
     [apply sigil_not_builtin; lia|unfold ity; destruct (head_digit (cs ++ s)); discriminate|unfold ity; destruct (head_digit (cs ++ s)); discriminate| | | |].
@@ -467,7 +499,7 @@ Proof.
   assert (Hha : head_ascii (cs ++ s)).
   { destruct cs as [|c cs]; [apply stops_head_ascii; exact Hst|]. cbn in Hcs |- *. apply Bool.andb_true_iff in Hcs. destruct Hcs as [Hc _].
     apply Bool.andb_true_iff in Hc. destruct Hc as [Hc _]. apply N.ltb_lt in Hc. exact Hc. }
-  destruct (next_back (adv (adv lb)) (([] ++ [63%N]) ++ [46%N]) (cs ++ s) Hs3 Hha) as (d & l2 & Hn4 & Hs4 & Ho & Hla & Hdd & Hst2 & Hdig).
+  destruct (next_back inp (adv (adv lb)) (([] ++ [63%N]) ++ [46%N]) (cs ++ s) Hs3 Hha) as (d & l2 & Hn4 & Hs4 & Ho & Hla & Hdd & Hst2 & Hdig).
   set (ity := if head_digit (cs ++ s) then itemQuestionDotIndex else itemQuestionDotIdent).
   destruct (ident_tail ity l (backup l2) (([] ++ [63%N]) ++ [46%N]) cs s Hs4 Hcs Hst) as (l' & Ht & Hs' & Hsent);
     [apply sigil_not_builtin; lia|unfold ity; destruct (head_digit (cs ++ s)); discriminate|unfold ity; destruct (head_digit (cs ++ s)); discriminate| | | |].
@@ -519,27 +551,7 @@ Qed.
 
 (* ---------- operators ---------- *)
 
-Definition head_rune (s : bstr) : Z := match s with [] => eof | c :: _ => Z.of_N c end.
 
-Lemma next_back2 l w s : span l w s -> head_ascii s ->
-  exists l1, next inp ilen l = Ok (head_rune s, l1) /\ span (backup l1) w s /\
-    l_out l1 = l_out l /\ l_last l1 = l_last l /\ l_dd l1 = l_dd l.
-Proof.
-  intros Hs Ha. destruct s as [|c s].
-  - exists (ateof l). rewrite (next_eof inp l w Hs). split; [reflexivity|]. split; [|repeat split].
-    unfold span, backup, ateof, set_pos. cbn [l_pos l_start l_width]. destruct Hs as (H0 & Hd & Hp). repeat split; try assumption; lia.
-  - cbn in Ha. destruct (next_ascii inp l w c s Hs Ha) as (Hn & Hs'). exists (adv l). split; [exact Hn|].
-    split; [apply span_backup; exact Hs|repeat split].
-Qed.
-
-Lemma peek_span l w s : span l w s -> head_ascii s ->
-  exists l1, peek inp ilen l = Ok (head_rune s, l1) /\ span l1 w s /\
-    l_out l1 = l_out l /\ l_last l1 = l_last l /\ l_dd l1 = l_dd l.
-Proof.
-  intros Hs Ha. destruct (next_back2 l w s Hs Ha) as (l1 & Hn & Hs1 & Ho & Hla & Hd).
-  exists (backup l1). unfold peek. rewrite Hn. cbn [bind]. split; [reflexivity|]. split; [exact Hs1|].
-  unfold backup, set_pos. cbn [l_out l_last l_dd]. auto.
-Qed.
 
 (* "-" after an operand is the binary operator *)
 Lemma lex_sub l s : span l [] (45 :: s)%N -> ends_term (t_typ (l_last l)) = true ->
@@ -560,8 +572,8 @@ Lemma lex_negate l s : span l [] (45 :: s)%N -> ends_term (t_typ (l_last l)) = f
 Proof.
   intros Hs He Ha Hd.
   destruct (next_ascii inp l [] 45%N s Hs ltac:(lia)) as (Hn & Hs1).
-  destruct (peek_span (adv l) _ s Hs1 Ha) as (l1 & Hp1 & Hsp1 & Ho1 & Hla1 & Hd1).
-  destruct (peek_span l1 _ s Hsp1 Ha) as (l2 & Hp2 & Hsp2 & Ho2 & Hla2 & Hd2).
+  destruct (peek_span inp (adv l) _ s Hs1 Ha) as (l1 & Hp1 & Hsp1 & Ho1 & Hla1 & Hd1).
+  destruct (peek_span inp l1 _ s Hsp1 Ha) as (l2 & Hp2 & Hsp2 & Ho2 & Hla2 & Hd2).
   assert (Hdig : (48 <=? head_rune s) && (head_rune s <=? 57) = false).
   { destruct s as [|c s]; [reflexivity|]. cbn in Hd |- *. unfold digit_b in Hd. lia. }
   destruct (48 <=? head_rune s) eqn:E48.
@@ -583,7 +595,7 @@ Lemma lex_div l s : span l [] (47 :: s)%N -> head_ascii s -> match s with c :: _
 Proof.
   intros Hs Ha Hc.
   destruct (next_ascii inp l [] 47%N s Hs ltac:(lia)) as (Hn & Hs1).
-  destruct (peek_span (adv l) _ s Hs1 Ha) as (l1 & Hp1 & Hsp1 & Ho1 & Hla1 & Hd1).
+  destruct (peek_span inp (adv l) _ s Hs1 Ha) as (l1 & Hp1 & Hsp1 & Ho1 & Hla1 & Hd1).
   destruct (emit_span inp base itemDiv l1 _ s Hsp1) as (Hem & Hs2).
   eexists. split; [|split; [exact Hs2|apply sent_emitted; [rewrite Ho1|rewrite Hla1|rewrite Hd1]; reflexivity]].
   apply steps_one. cbn [step]. unfold lex_inside_tag. rewrite Hn. cbn [bind]. eval_tests. rewrite Hp1. cbn [bind].
@@ -619,12 +631,6 @@ Proof.
       destruct c as [|p]; [exact Hgoal|]. do 6 (destruct p as [p|p|]; try exact Hgoal). congruence.
 Qed.
 
-Lemma slice_span l w s : span l w s -> slice inp ilen (l_start l) (l_pos l) = Ok w.
-Proof.
-  intros Hs. pose proof (span_bounds inp _ _ _ Hs) as (Hb & Hlen). destruct Hs as (H0 & Hd & Hp). unfold slice.
-  destruct ((l_start l <? 0) || (l_pos l <? l_start l) || (ilen <? l_pos l)) eqn:E; [lia|].
-  rewrite Hd. replace (Z.to_nat (l_pos l - l_start l)) with (length w) by lia. rewrite take_app_len. reflexivity.
-Qed.
 
 (* < > followed by something else than "=" ;  <= >= != *)
 Lemma lex_cmp1 l c t s : span l [] (c :: s) -> (c = 60 /\ t = itemLt \/ c = 62 /\ t = itemGt)%N ->
@@ -641,7 +647,7 @@ Proof.
   destruct (emit_span inp base t l1 _ s Hs2) as (Hem & Hs3).
   eexists. split; [|split; [exact Hs3|apply sent_emitted; [rewrite Ho|rewrite Hla|rewrite Hd]; reflexivity]].
   apply steps_one. cbn [step]. unfold lex_inside_tag. rewrite Hn. cbn [bind].
-  destruct Hc as [[-> ->]|[-> ->]]; eval_tests; rewrite Hac; cbn [bind]; rewrite (slice_span _ _ _ Hs2); cbn [bind app];
+  destruct Hc as [[-> ->]|[-> ->]]; eval_tests; rewrite Hac; cbn [bind]; rewrite (slice_span inp _ _ _ Hs2); cbn [bind app];
     [change (assoc_s [60%N] arith_items) with (Some itemLt)|change (assoc_s [62%N] arith_items) with (Some itemGt)];
     unfold emit_to; rewrite Hem; reflexivity.
 Qed.
@@ -656,7 +662,7 @@ Proof.
   destruct (emit_span inp base t l1 _ s Hs2) as (Hem & Hs3).
   eexists. split; [|split; [exact Hs3|apply sent_emitted; [rewrite Ho|rewrite Hla|rewrite Hd]; reflexivity]].
   apply steps_one. cbn [step]. unfold lex_inside_tag. rewrite Hn. cbn [bind].
-  destruct Hc as [[-> ->]|[[-> ->]|[-> ->]]]; eval_tests; rewrite Hac; cbn [bind]; rewrite (slice_span _ _ _ Hs2); cbn [bind app];
+  destruct Hc as [[-> ->]|[[-> ->]|[-> ->]]]; eval_tests; rewrite Hac; cbn [bind]; rewrite (slice_span inp _ _ _ Hs2); cbn [bind app];
     [change (assoc_s [60%N; 61%N] arith_items) with (Some itemLte)|change (assoc_s [62%N; 61%N] arith_items) with (Some itemGte)
     |change (assoc_s [33%N; 61%N] arith_items) with (Some itemNotEq)];
     unfold emit_to; rewrite Hem; reflexivity.
@@ -667,12 +673,12 @@ Lemma lex_eqeq l s : span l [] (61 :: 61 :: s)%N ->
 Proof.
   intros Hs.
   destruct (next_ascii inp l [] 61%N (61%N :: s) Hs ltac:(lia)) as (Hn & Hs1).
-  destruct (peek_span (adv l) _ (61%N :: s) Hs1 ltac:(cbn; lia)) as (lp & Hp & Hsp & Hop & Hlap & Hdp).
+  destruct (peek_span inp (adv l) _ (61%N :: s) Hs1 ltac:(cbn; lia)) as (lp & Hp & Hsp & Hop & Hlap & Hdp).
   destruct (accept_eq_span lp _ (61%N :: s) Hsp ltac:(cbn; lia)) as (l1 & Hac & Hs2 & Ho & Hla & Hd).
   destruct (emit_span inp base itemEq l1 _ s Hs2) as (Hem & Hs3).
   eexists. split; [|split; [exact Hs3|apply sent_emitted; [rewrite Ho, Hop|rewrite Hla, Hlap|rewrite Hd, Hdp]; reflexivity]].
   apply steps_one. cbn [step]. unfold lex_inside_tag. rewrite Hn. cbn [bind]. eval_tests. rewrite Hp. cbn [bind head_rune]. eval_tests.
-  rewrite Hac. cbn [bind]. rewrite (slice_span _ _ _ Hs2). cbn [bind app].
+  rewrite Hac. cbn [bind]. rewrite (slice_span inp _ _ _ Hs2). cbn [bind app].
   change (assoc_s [61%N; 61%N] arith_items) with (Some itemEq). unfold emit_to. rewrite Hem. reflexivity.
 Qed.
 
